@@ -272,3 +272,4 @@ fn c10_get_message_type_short() {
     assert!(matches!(r, Err(ContractError::InsufficientMessageLength)), "OBL C10.short_payload_rejected");
     kani::cover!(n == 31, "COVER gmt 31 bytes");
 }
+
